@@ -222,5 +222,5 @@ impl Default for Config {
 }
 
 #[cfg(kani)]
-#[path = "/verif/kani/config_proofs.rs"]
-pub(crate) mod verif_proofs; // verification hook (H2): specs and contract harnesses live in /verif
+#[allow(dead_code, unused_imports, unused_variables, unused_macros, static_mut_refs)]
+pub(crate) mod verif_proofs { include!(concat!(env!("VERIF_KANI_DIR"), "/config_proofs.rs")); } // verification hook (H2): specs and contract harnesses live in /verif
